@@ -49,9 +49,9 @@ func fetch(cl *http.Client, url string) e2eFetch {
 	return e2eFetch{status: resp.StatusCode, header: resp.Header, body: b, err: err}
 }
 
-func runE2EHistory(seed int64, h int, pool map[string][]*poolKey, ca *caSet, dir string, now func() int64, stress int) histResult {
+func runE2EHistory(seed int64, h int, pool map[string][]*poolKey, ca *caSet, dir string, now func() int64, stress int) (res histResult) {
 	rng := mrand.New(mrand.NewPCG(uint64(seed), uint64(h)))
-	res := histResult{Mode: "e2e"}
+	res = histResult{Mode: "e2e"}
 	nGood := 4 + rng.IntN(3)
 	perTok, perJWKS := 14, 10
 	var prefer func() string
@@ -72,10 +72,7 @@ func runE2EHistory(seed int64, h int, pool map[string][]*poolKey, ca *caSet, dir
 	}
 	res.Cfg = cfg
 	res.Kinds = cfg.kinds()
-	if err := cfg.precheck(dir); err != nil {
-		res.Harness = "generator/precheck: " + err.Error()
-		return res
-	}
+	defer func() { cfg.lazyPrecheck(&res, dir) }()
 	hdir, err := os.MkdirTemp(dir, "e2e-")
 	if err != nil {
 		res.Harness = err.Error()
@@ -372,6 +369,7 @@ func countGood(gens []*genSpec) int {
 // in the app) and every key-set read:
 //   - never a generation whose file was not yet in place when the operation returned;
 //   - an operation that starts after another one returned generation g never returns an older one.
+//
 // Tokens served by an app with a cache are checked for the first fact only.
 func checkRealTimeOrder(evs []sEv, writes []written) []problem {
 	var out []problem
